@@ -186,6 +186,48 @@ structure NewtonOk (α : Type) where
 
 def lookup (x : List α) : Nat → Option α := fun i => x[i]?
 
+/-- What one round of the loop does. -/
+inductive StepResult (α : Type) where
+  /-- `return Ok(..)` -/
+  | done (r : NewtonOk α)
+  /-- `return Err(..)` / `?` (with the warnings pushed so far) -/
+  | fail (e : SolveError) (ws : List (Warning α))
+  /-- next round, with the updated values and warnings -/
+  | next (x : List α) (ws : List (Warning α))
+
+/-- `current_values[i] += d[i]`. -/
+def applyStep (x d : List α) : List α := List.zipWith (· + ·) x d
+/-- `step_tolerance * (‖x‖∞ + step_tolerance)`. -/
+def stepThreshold (cfg : Config α) (x : List α) : α :=
+  cfg.stepTolerance * (maxAbs0 x + cfg.stepTolerance)
+/-- `d.map(abs).reduce(fmax).unwrap_or(0.0)`. -/
+def stepInfNorm (d : List α) : α := (maxAbs? d).getD 0.0
+/-- No value is NaN or infinite. -/
+def allFinite (x : List α) : Bool := x.all (fun v => isFinite v)
+
+/-- One round of `solve_gauss_newton` (`k` is `this_iteration`). -/
+def newtonStep (es : List (Entry α)) (cfg : Config α) (solve : Nat → List (Triplet α) → List α →
+    Except SolveError (List α)) (k : Nat) (x : List α) (ws : List (Warning α)) : StepResult α :=
+  match residualAll es (lookup x) with
+  | .error e => .fail e ws
+  | .ok (r, w1) =>
+    match jacobianAll es (lookup x) with
+    | .error e => .fail e (ws ++ w1)
+    | .ok (jac, w2) =>
+      match maxAbs? r with
+      | none => .fail .emptySystemNotAllowed (ws ++ w1 ++ w2)
+      | some largest =>
+        if largest ≤ cfg.convergenceTolerance then .done ⟨x, k, ws ++ w1 ++ w2, jac⟩
+        else
+          match solve k jac r with
+          | .error e => .fail e (ws ++ w1 ++ w2)
+          | .ok d =>
+            if d.length ≠ x.length then .fail (.panic "d has the wrong length") (ws ++ w1 ++ w2)
+            else if !allFinite (applyStep x d) then .fail .didNotConverge (ws ++ w1 ++ w2)
+            else if stepInfNorm d ≤ stepThreshold cfg x then
+              .done ⟨applyStep x d, k, ws ++ w1 ++ w2, jac⟩
+            else .next (applyStep x d) (ws ++ w1 ++ w2)
+
 /-- `solve_gauss_newton`: `fuel` rounds remain, `k` is `this_iteration`. -/
 def newtonLoop (es : List (Entry α)) (cfg : Config α) (solve : Nat → List (Triplet α) → List α →
     Except SolveError (List α)) (fuel k : Nat) (x : List α) (ws : List (Warning α)) :
@@ -193,31 +235,10 @@ def newtonLoop (es : List (Entry α)) (cfg : Config α) (solve : Nat → List (T
   match fuel with
   | 0 => .error (.didNotConverge, ws)
   | fuel + 1 =>
-    match residualAll es (lookup x) with
-    | .error e => .error (e, ws)
-    | .ok (r, w1) =>
-      match jacobianAll es (lookup x) with
-      | .error e => .error (e, ws ++ w1)
-      | .ok (jac, w2) =>
-        let ws := ws ++ w1 ++ w2
-        match maxAbs? r with
-        | none => .error (.emptySystemNotAllowed, ws)
-        | some largest =>
-          if largest ≤ cfg.convergenceTolerance then .ok ⟨x, k, ws, jac⟩
-          else
-            match solve k jac r with
-            | .error e => .error (e, ws)
-            | .ok d =>
-              if d.length ≠ x.length then .error (.panic "d has the wrong length", ws)
-              else
-                let curInf := maxAbs0 x
-                let stepInf := (maxAbs? d).getD 0.0
-                let x' := List.zipWith (· + ·) x d
-                if x'.any (fun v => !isFinite v) then .error (.didNotConverge, ws)
-                else
-                  let thr := cfg.stepTolerance * (curInf + cfg.stepTolerance)
-                  if stepInf ≤ thr then .ok ⟨x', k, ws, jac⟩
-                  else newtonLoop es cfg solve fuel (k + 1) x' ws
+    match newtonStep es cfg solve k x ws with
+    | .done r => .ok r
+    | .fail e ws => .error (e, ws)
+    | .next x' ws' => newtonLoop es cfg solve fuel (k + 1) x' ws'
 
 def newton (es : List (Entry α)) (cfg : Config α) (solve : Nat → List (Triplet α) → List α →
     Except SolveError (List α)) (x : List α) :
@@ -297,40 +318,38 @@ def unsatisfiedSweep (es : List (Entry α)) (x : Nat → Option α) : Except Sol
 /-- `entries.map(priority).max().unwrap_or_default()`. -/
 def maxPriority (es : List (Entry α)) : Nat := es.foldl (fun acc e => max acc e.priority) 0
 
+/-- `A::analyze(model)`: `none` is `NoAnalysis`; otherwise the SVD of the last Jacobian followed by
+`calculate`. -/
+def runAnalysis (analyze : Option (List (Triplet α) → Except SolveError (List α × List (List α))))
+    (jac : List (Triplet α)) (numVars : Nat) : Except SolveError (Option (List Nat)) :=
+  match analyze with
+  | none => .ok none
+  | some svd =>
+    match svd jac with
+    | .error e => .error e
+    | .ok (sigma, V) =>
+      match dofCalculate sigma V numVars with
+      | .error e => .error e
+      | .ok us => .ok (some us)
+
 /-- `solve_inner`.  `solve` is the LU oracle for this call; `analyze = none` is `NoAnalysis`. -/
 def solveInner (es : List (Entry α)) (guesses : List (Nat × α)) (cfg : Config α)
     (solve : Nat → List (Triplet α) → List α → Except SolveError (List α))
     (analyze : Option (List (Triplet α) → Except SolveError (List α × List (List α)))) :
     Except (Failure α) (Outcome α) :=
-  let numVars := guesses.length
-  let numEqs := numRows es
-  let vars := guesses.map (·.1)
-  let values := guesses.map (·.2)
-  let warnings := lint es
-  match modelNew es vars with
-  | .error e => .error ⟨e, warnings, numVars, numEqs⟩
+  match modelNew es (guesses.map (·.1)) with
+  | .error e => .error ⟨e, lint es, guesses.length, numRows es⟩
   | .ok () =>
-    match newton es cfg solve values with
-    | .error (e, ws) => .error ⟨e, warnings ++ ws, numVars, numEqs⟩
+    match newton es cfg solve (guesses.map (·.2)) with
+    | .error (e, ws) => .error ⟨e, lint es ++ ws, guesses.length, numRows es⟩
     | .ok ok =>
-      let warnings := warnings ++ ok.warnings
       match unsatisfiedSweep es (lookup ok.values) with
-      | .error e => .error ⟨e, warnings, numVars, numEqs⟩
+      | .error e => .error ⟨e, lint es ++ ok.warnings, guesses.length, numRows es⟩
       | .ok unsat =>
-        let analysis : Except SolveError (Option (List Nat)) :=
-          match analyze with
-          | none => .ok none
-          | some svd =>
-            match svd ok.lastJac with
-            | .error e => .error e
-            | .ok (sigma, V) =>
-              match dofCalculate sigma V numVars with
-              | .error e => .error e
-              | .ok us => .ok (some us)
-        match analysis with
-        | .error e => .error ⟨e, warnings, numVars, numEqs⟩
+        match runAnalysis analyze ok.lastJac guesses.length with
+        | .error e => .error ⟨e, lint es ++ ok.warnings, guesses.length, numRows es⟩
         | .ok under =>
-          .ok ⟨unsat, ok.values, ok.iterations, warnings, maxPriority es, under⟩
+          .ok ⟨unsat, ok.values, ok.iterations, lint es ++ ok.warnings, maxPriority es, under⟩
 
 /-- Sorted, duplicate-free priority levels. -/
 def insertLevel (p : Nat) : List Nat → List Nat
@@ -352,8 +371,8 @@ def priorityLoop (es : List (Entry α)) (guesses : List (Nat × α)) (cfg : Conf
   match lvls with
   | [] => .ok res
   | p :: rest =>
-    let subset := es.filter (fun e => e.priority ≤ p)
-    match solveInner subset guesses cfg (solve call) (svd.map (fun s => s call)) with
+    match solveInner (es.filter (fun e => e.priority ≤ p)) guesses cfg (solve call)
+        (svd.map (fun s => s call)) with
     | .ok o =>
       if !o.unsatisfied.isEmpty then .ok (some (res.getD o))
       else priorityLoop es guesses cfg solve svd rest (call + 1) (some o)
@@ -372,11 +391,9 @@ def solveWithPriority (reqs : List (Constraint α × Nat)) (guesses : List (Nat 
     Except (Failure α) (Outcome α) :=
   if reqs.isEmpty then .ok (noConstraintsOutcome guesses svd.isSome 0)
   else
-    let es := enumerate reqs
-    let lvls := levels es
-    match priorityLoop es guesses cfg solve svd lvls 0 none with
+    match priorityLoop (enumerate reqs) guesses cfg solve svd (levels (enumerate reqs)) 0 none with
     | .error f => .error f
     | .ok (some o) => .ok o
-    | .ok none => .ok (noConstraintsOutcome guesses svd.isSome (lvls.headD 0))
+    | .ok none => .ok (noConstraintsOutcome guesses svd.isSome ((levels (enumerate reqs)).headD 0))
 
 end Ezpz
